@@ -112,3 +112,34 @@ Print Assumptions C07_rebuild_converges.
 Print Assumptions C07_ulm_phases_are_update_lun_map.
 Print Assumptions C07_rebuild_unaligned_refuted.
 Print Assumptions C07_rebuild_diverged_refuted.
+
+(** the executable trace oracle of the control half (the one the correspondence run evaluates on the
+    real controller's observations) accepts every trace of the controller model (single-request
+    histories; no condition on the number of observed replicas: outside the observed range the oracle
+    gives no verdict) *)
+From Jiva Require Import Ctl.Model Ctl.Corr Ctl.Oracles Ctl.Proofs Ctl.OracleProofs2 Ctl.OracleProofs07.
+
+Theorem C07_oracle_accepts_model_traces : forall es rf0 n w0, (1 <= rf0)%nat -> forallb Ctl.Proofs.ev_wf es = true ->
+  walk (lift (c07_step rf0) nopair) 0 (obs0 rf0 n w0) (map One es) (trace n (Ctl.Model.init rf0 w0) (map One es)) = None.
+Proof. exact c07_oracle_model. Qed.
+
+(** a replica listed as WO becomes RW only in VerifyRebuildReplica of that replica or by a
+    SetReplicaMode(RW) request naming it; no other request of the controller promotes it *)
+Theorem C07_promotion_only_by_verify : forall s e a, Ctl.Proofs.struct_ok s ->
+  In (a, WO) (replicas s) -> In (a, RW) (replicas (fst (fst (Ctl.Model.step s e)))) ->
+  match e with
+  | Verify a' _ => a' = a
+  | SetMode a' RW => a' = a
+  | _ => False
+  end.
+Proof. exact promotion_only_by_verify. Qed.
+
+(** the oracle extended with that clause also accepts every trace of the model *)
+Theorem C07_extended_oracle_accepts_model_traces : forall es rf0 n w0, (1 <= rf0)%nat -> forallb Ctl.Proofs.ev_wf es = true ->
+  walk (lift (fun prev e cur => c07_step rf0 prev e cur && c07_only_verify prev e cur) nopair) 0
+       (obs0 rf0 n w0) (map One es) (trace n (Ctl.Model.init rf0 w0) (map One es)) = None.
+Proof. exact c07_only_verify_oracle_model. Qed.
+
+Print Assumptions C07_oracle_accepts_model_traces.
+Print Assumptions C07_promotion_only_by_verify.
+Print Assumptions C07_extended_oracle_accepts_model_traces.
